@@ -290,7 +290,7 @@ JUDGES = {"c01": judge_c01, "c02": judge_c02, "c03": judge_c03, "c16": judge_c16
 
 
 def explore(kind, n, cfg, hidden, states, d, persistent, judge, snap=False, extra=None, only_pre_first=False, flavour="plain",
-            two_step=None, reenter=False):
+            two_step=None, reenter=False, stack=False):
     t = core.Tally()
     forest.FAULT_FLAVOUR[0] = flavour
     if two_step:
@@ -317,9 +317,13 @@ def explore(kind, n, cfg, hidden, states, d, persistent, judge, snap=False, extr
                 menu = [("setp", x, y) for x in forest.LABELS[:n] for y in (None,) + tuple(forest.LABELS[:n]) if x != y]
             elif reenter:
                 menu = [("setp", x, None) for x in forest.LABELS[:n]]
-            for ex in forest.runs(kind, n, witness, state, op, d, persistent, snap, want, menu):
+            for ex in forest.runs(kind, n, witness, state, op, d, persistent, snap, want, menu, range(1, 40) if stack else None):
                 t.c["executions"] += 1
-                if ex.raise_at and ex.raise_at[0] == "reenter":
+                if ex.raise_at and ex.raise_at[0] == "stack":
+                    t.c["exec_stack_budget"] += 1
+                    if ex.outcome == "RecursionError":
+                        t.c["stack_exhausted_runs"] += 1
+                elif ex.raise_at and ex.raise_at[0] == "reenter":
                     t.c["exec_reentrant_hook"] += 1
                 else:
                     t.c["exec_d%d%s" % (len(ex.raise_at), "p" if ex.persist else "")] += 1
@@ -400,7 +404,8 @@ def run_configs(configs, log=print):
                                                  d=c["d"], persistent=tuple(c.get("persistent", ())), judge=c["judge"],
                                                  snap=c.get("snap", False), extra=c.get("extra"),
                                                  only_pre_first=c.get("only_pre_first", False), flavour=c.get("flavour", "plain"),
-                                                 two_step=c.get("two_step"), reenter=c.get("reenter", False)))
+                                                 two_step=c.get("two_step"), reenter=c.get("reenter", False),
+                                                 stack=c.get("stack", False)))
                     for s in shards
                 ]
                 t = core.Tally()
